@@ -26,7 +26,7 @@ fn spec(tier: Tier) -> CheckSpec {
 	let n = crate::common::ncpu();
 	CheckSpec {
 		property: "C18",
-		level: "exploration",
+		level: "model_checking",
 		rule: format!(
 			"exhaustive: (collector) every evaluable program of the whole-language generator with <= {} constructs, every 2-layer inheritance chain (all 12 member kinds, both composition syntaxes) manifested and listed, and a list of cyclic structures (self-referential objects, $-cycles, recursive and mutually recursive closures, lazy cyclic arrays, object-local caches, cycles through super, imports, std.trace, comprehensions) ending in a value, a runtime error, an assertion failure and the frame limit: after dropping the result and the State and running collect_thread_cycles() on the worker thread, count_thread_tracked() is back at the value measured before the State was built; \
 			(interner) every history of length <= {} over {} operations on 3 handle slots and contents {{\"\", a, é, invalid UTF-8 0xff}} (intern_str, intern_bytes, From<char>, clone, drop, cast_bytes, cast_str, pool hand-over to the same and to a new OS thread), unmerged, plus a breadth-first search over all model states (slot kind and content) to its fixed point with every operation tried from every state: after every step two handles are equal exactly when their contents are, contents are intact, cast_str fails exactly on invalid UTF-8, the pool (hook) holds exactly the distinct live contents, and it is empty when every handle is dropped. non-trivial = distinct program / history",
